@@ -745,6 +745,7 @@ func snapshot(e r.Element) (v Val, orderOK bool) {
 
 func doAPI(req *Req) (resp Resp) {
 	resp.Kind = "ok"
+	resetCapture()
 	var recv r.Element
 	func() {
 		defer func() {
@@ -773,6 +774,10 @@ func doAPI(req *Req) (resp Resp) {
 			}()
 			args := []r.Element{}
 			for _, a := range st.Args {
+				if a.T == "self" {
+					args = append(args, recv)
+					continue
+				}
 				args = append(args, fromVal(a))
 			}
 			var out r.Element
@@ -844,16 +849,18 @@ func doAPI(req *Req) (resp Resp) {
 			sr.Kind = "ok"
 			sr.Val = &v
 		}()
-		func() {
-			defer func() {
-				if p := recover(); p != nil {
-					sr = StepRes{Kind: "panic", Panic: "snapshot: " + fmt.Sprint(p)}
-				}
+		if req.Mode != "nostate" {
+			func() {
+				defer func() {
+					if p := recover(); p != nil {
+						sr = StepRes{Kind: "panic", Panic: "snapshot: " + fmt.Sprint(p)}
+					}
+				}()
+				s, ok := snapshot(recv)
+				sr.State = &s
+				sr.OrderOK = ok
 			}()
-			s, ok := snapshot(recv)
-			sr.State = &s
-			sr.OrderOK = ok
-		}()
+		}
 		resp.Steps = append(resp.Steps, sr)
 	}
 	return
